@@ -142,8 +142,78 @@ def replay_state(rec, st, idx):
         rec.sample({'shape': shape, 'ds9_text': text, 'visual': {k: v for k, v in v1.items() if v != 'A'}, 'written': {k: v for k, v in w.items() if v != 'A'}})
 
 
+def api_region(shape, vis):
+    """A pixel region of the DS9 shape with visual attributes given through the API, as a matplotlib user writes them."""
+    import astropy.units as u
+    import numpy as np
+    import regions as R
+    from regions import PixCoord, RegionVisual
+    v = {}
+    for k, t in vis.items():
+        if t == 'A':
+            continue
+        if k in ('fontsize', 'markersize', 'linewidth', 'markeredgewidth'):
+            v[k] = int(t)
+        elif k == 'fill':
+            v[k] = True
+        elif k == 'linestyle':
+            v[k] = 'dashed' if t == 'dashed' else (0, (8, 3))
+        else:
+            v[k] = t
+    c = PixCoord(9.0, 19.0)
+    vis_ = RegionVisual(v)
+    return {'circle': lambda: R.CirclePixelRegion(c, 3.0, visual=vis_), 'ellipse': lambda: R.EllipsePixelRegion(c, 6.0, 4.0, angle=30 * u.deg, visual=vis_),
+            'box': lambda: R.RectanglePixelRegion(c, 4.0, 2.0, visual=vis_), 'polygon': lambda: R.PolygonPixelRegion(PixCoord(np.array([0.0, 4, 2]), np.array([1.0, 1, 5])), visual=vis_),
+            'annulus': lambda: R.CircleAnnulusPixelRegion(c, 2.0, 4.0, visual=vis_), 'line': lambda: R.LinePixelRegion(PixCoord(0.0, 1.0), PixCoord(4.0, 5.0), visual=vis_),
+            'point': lambda: R.PointPixelRegion(c, visual=vis_), 'text': lambda: R.TextPixelRegion(c, 't', visual=vis_)}[shape]()
+
+
+def replay_write_first(rec, st, idx):
+    """SpecW: visual attributes given through the API, serialised first (Ds9Visual!ToDs9 incl. the defaults the writer assumes), parsed back."""
+    from regions import Regions
+    shape = st['shape']
+    rec.traces += 1
+    given = {k: v for k, v in dict(st['vis1']).items() if v != 'A'}
+    case = {'shape': shape, 'visual_given': given, 'model_written': st['out'], 'model_read_back': {k: v for k, v in dict(st['vis2']).items() if v != 'A'}}
+    rec.case(('write-first', shape, tuple(sorted(given.items()))), bool(given))
+    try:
+        with warnings.catch_warnings():
+            warnings.simplefilter('ignore')
+            out = Regions([api_region(shape, st['vis1'])]).serialize(format='ds9')
+            r2 = Regions.parse(out, format='ds9')
+    except Exception as ex:  # noqa
+        rec.violation(f'C09|visual-api|raises|{shape}|{type(ex).__name__}', f'{ex!r}', case)
+        return
+    w = written_props(out)
+    wantw = dict(st['out'])
+    d = [k for k in ORDER if w[k] != wantw[k]]
+    if d:
+        rec.violation(f'C09|visual-api|write|{shape}|{d[0]}', f'{shape} with visual {given}: property {d[0]} written as {w[d[0]]!r}, Ds9Visual!ToDs9 says {wantw[d[0]]!r}', dict(case, written=out))
+        return
+    if len(r2) != 1:
+        rec.violation(f'C09|visual-api|count|{shape}', f'{len(r2)} regions after the round trip', dict(case, written=out))
+        return
+    v2 = proj_visual(r2[0].visual)
+    want2 = dict(st['vis2'])
+    d = [k for k in VKEYS if v2[k] != want2[k]]
+    if d:
+        rec.violation(f'C09|visual-api|read-back|{shape}|{d[0]}', f'{shape} with visual {given}: visual[{d[0]!r}] reads back as {v2[d[0]]!r}, the model says {want2[d[0]]!r}', dict(case, written=out))
+
+
 def run(ctx):
     quick = ctx.tier == 'quick'
+    resw = tlc.run('MC_Ds9Visual', cfg_text=CFG.replace('SPECIFICATION Spec', 'SPECIFICATION SpecW').split('INVARIANT')[0]
+                   + 'INVARIANT WriterDefaultsAreDs9s\nINVARIANT SecondCycleFixed\nINVARIANT LineStyleSurvives\nCHECK_DEADLOCK FALSE\n', dump=True, tag='c09visw', timeout=600)
+    ctx.tlc(resw, 'MC_Ds9Visual SpecW: visual attributes given through the API, serialised first')
+    if resw.violated:
+        ctx.violation(f'C09|model|Ds9Visual.{resw.violated}', f'Ds9Visual.tla (SpecW): {resw.violated} fails in the model', {'trace': resw.trace[-1:]})
+    else:
+        before = ctx.traces
+        par.pmap_dump(ctx, replay_write_first, resw.dump_path, only='pc = "done"', stride=1, chunk=200)
+        ctx.note('visual_api_states_replayed', ctx.traces - before)
+        if ctx.traces == before:
+            raise tlc.TlcError('no Ds9Visual SpecW state was replayed')
+    tlc.cleanup(resw.workdir)
     res = tlc.run('MC_Ds9Visual', cfg_text=CFG, dump=True, tag='c09vis', timeout=1800)
     ctx.tlc(res, 'MC_Ds9Visual: 8 shapes x every combination of DS9 visual properties; parse, serialise, parse again')
     if res.violated:
